@@ -8,8 +8,8 @@ From Dashu Require Import Base.Prelude Float.RoundSpec Float.RoundSpecProof Floa
   Float.WithBasePrec Float.WithBasePrecProof Float.WithBasePrecRule Float.FmtPadProof Float.PartsConstModel Float.PartsConstProof
   Float.DebugSpec Float.DebugSpecExamples
   Float.ConvBaseModel4 Float.ConvBaseFull4 Float.ConvValueSpecProof Float.ConvBaseProof4 Float.RadixFmtModel Float.RadixFmtProof
-  Float.ConvBaseGen4Proof.
-From DashuGen Require Import RoundTables ConvBaseGen ConvBaseGen4.
+  Float.ConvBaseGen4Proof Float.LargeExpAsis5 Float.LargeExpAsis5Proof Float.RoundSpecMono Float.ConvValueSpecMono.
+From DashuGen Require Import RoundTables ConvBaseGen ConvBaseGen4 ConvBaseGen5.
 Open Scope Z_scope.
 
 (** ** parsing: every text of the documented grammar (parse_spec = the grammar read from left to right: sign,
@@ -774,3 +774,130 @@ Theorem C08_convert_large_observed_refuted :
   check_contract 2 332 MZero x (r - 1) 7 FExact = true.
 Proof. exact convert_large_observed_refuted. Qed.
 Print Assumptions C08_convert_large_observed_refuted.
+
+(** ** round 5: the ln/exp route after the repair of F05 (Float/LargeExpAsis5.v: retry loop, both ends of the error
+    interval of the approximant rounded, exact fallback inside the window, formulas regenerated: DashuGen.ConvBaseGen5) *)
+
+Theorem C08_gen5_work_precision : forall p e B NB extra,
+  large_work_precision_extra_gen p e B NB extra = large_work_precision_gen p e B NB + extra.
+Proof. exact gen5_work_precision. Qed.
+Print Assumptions C08_gen5_work_precision.
+
+Theorem C08_gen5_pad : forall p extra, large_pad_gen p extra = 2 * p + extra - 1.
+Proof. exact gen5_pad. Qed.
+Print Assumptions C08_gen5_pad.
+
+Theorem C08_gen5_next_extra : forall NB extra, large_next_extra_gen NB extra = 2 * extra + dlen NB 1048576.
+Proof. exact gen5_next_extra. Qed.
+Print Assumptions C08_gen5_next_extra.
+
+Theorem C08_gen5_guard_doubles : forall NB extra,
+  large_next_extra_gen NB extra + dlen NB 1048576 = 2 * (extra + dlen NB 1048576).
+Proof. exact gen5_guard_doubles. Qed.
+Print Assumptions C08_gen5_guard_doubles.
+
+Theorem C08_gen5_exact_window : forall NB p s e,
+  large_exact_window NB p s e = (Z.abs e / 128 <=? Z.max (ElemF32.bit_len s) ((p + 1) * ElemF32.bit_len NB) + 1).
+Proof. exact gen5_exact_window. Qed.
+Print Assumptions C08_gen5_exact_window.
+
+Theorem C08_large_trace_first_pass : forall {F : Type} (O : f32ops F) W fuel B NB p m e,
+  large_trace_wp O W fuel NB B (large_work_precision_extra_gen p e B NB 0) m e = large_trace_asis O W fuel B NB p m e.
+Proof. intros F O. exact (large_trace_first_pass O). Qed.
+Print Assumptions C08_large_trace_first_pass.
+
+(** Context::convert_base_exact (small exponents, and the fallback of the ln/exp route) = the specification, EVERY exponent *)
+Theorem C08_convert_exact_asis_spec : forall NB, 2 <= NB -> forall B p m s e, 2 <= B -> 1 <= p -> s <> 0 ->
+  convert_exact_asis B NB p m s e = (let '(s', e', f) := convert_base_spec B NB p m s e in CDone s' e' f).
+Proof. exact convert_exact_asis_spec. Qed.
+Print Assumptions C08_convert_exact_asis_spec.
+
+Example C08_convert_exact_asis_spec_ex :
+  convert_exact_asis 10 2 332 MDown (-98) 100 =
+  (let '(s', e', f) := convert_base_spec 10 2 332 MDown (-98) 100 in CDone s' e' f) /\
+  (exists s' e', convert_base_spec 10 2 332 MDown (-98) 100 = (s', e', FExact)).
+Proof. split; [apply convert_exact_asis_spec; lia|]. vm_compute. eauto. Qed.
+
+Theorem C08_convert_base_small_is_exact : forall NB B p m s e, NB <> B ->
+  (if B <? NB then ilog_exact NB B else 0) <= 1 -> (if B <? NB then 0 else ilog_exact B NB) <= 1 -> p <> 0 ->
+  Z.abs e <= threshold_small_exp ->
+  convert_base_asis4 B NB p m s e = convert_exact_asis B NB p m s e.
+Proof. exact convert_base_small_is_exact. Qed.
+Print Assumptions C08_convert_base_small_is_exact.
+
+(** whatever float the repaired route returns is the specification of the value (exact fallback, only inside the window)
+    or the COMMON rounding, flag included, of both ends A (1 -+ NB^-pad) of the error interval of the approximant of a pass *)
+Theorem C08_convert_large_loop_returns : forall {F : Type} (O : f32ops F) W NB, 2 <= NB ->
+  forall passes fuel B p m s e s' e' f, 2 <= B -> 1 <= p -> s <> 0 -> forall extra,
+  convert_large_loop O W passes fuel B NB p m s e extra = CDone s' e' f ->
+  stable_answer O W NB fuel B p m s e (CDone s' e' f) \/
+  (large_exact_window NB p s e = true /\ (s', e', f) = convert_base_spec B NB p m s e).
+Proof. intros F O. exact (convert_large_loop_returns O). Qed.
+Print Assumptions C08_convert_large_loop_returns.
+
+Theorem C08_large_pass_retry : forall {F : Type} (O : f32ops F) W NB fuel B p m s e extra,
+  large_pass O W fuel B NB p m s e extra = PRetry -> large_exact_window NB p s e = false.
+Proof. intros F O. exact (large_pass_retry O). Qed.
+Print Assumptions C08_large_pass_retry.
+
+Theorem C08_large_end_is_spec : forall NB, 2 <= NB -> forall p m ys ye pad sg, 1 <= p -> ys <> 0 -> 1 <= pad -> (sg = 1 \/ sg = -1) ->
+  round_norm NB p m (ys * (NB ^ pad + sg)) (ye - pad) =
+  (let '(N, D) := value_frac NB (ys * (NB ^ pad + sg)) (ye - pad) in
+   let '(s', e', f) := convert_value_spec NB p m N D in CDone s' e' f).
+Proof. exact large_end_is_spec. Qed.
+Print Assumptions C08_large_end_is_spec.
+
+Theorem C08_monotone_stable_between : forall (rnd : R -> R) lo hi v,
+  (forall x y, (x <= y)%R -> (rnd x <= rnd y)%R) -> rnd lo = rnd hi -> (lo <= v <= hi)%R ->
+  rnd v = rnd lo /\ ((rnd lo < lo)%R -> (rnd v < v)%R) /\ ((hi < rnd hi)%R -> (v < rnd v)%R).
+Proof. exact monotone_stable_between. Qed.
+Print Assumptions C08_monotone_stable_between.
+
+Theorem C08_ends_enclose : forall A V d : R, (0 <= d)%R -> (Rabs (V - A) <= d * Rabs A)%R ->
+  (Rmin (A * (1 - d)) (A * (1 + d)) <= V <= Rmax (A * (1 - d)) (A * (1 + d)))%R.
+Proof. exact ends_enclose. Qed.
+Print Assumptions C08_ends_enclose.
+
+(** the integer rounding of the specification is monotone in the numerator, every mode *)
+Theorem C08_spec_round_floor_form : forall m N d, 0 < d -> spec_round m N d = N / d + bump m (N / d) (N mod d) d.
+Proof. exact spec_round_floor_form. Qed.
+Print Assumptions C08_spec_round_floor_form.
+
+Theorem C08_spec_round_mono : forall m N1 N2 d, 0 < d -> N1 <= N2 -> spec_round m N1 d <= spec_round m N2 d.
+Proof. exact spec_round_mono. Qed.
+Print Assumptions C08_spec_round_mono.
+
+(** the specification of a base change is constant between two values on which it agrees with an Inexact flag
+    (across powers of the base too: there the flags of the two ends differ) *)
+Theorem C08_convert_value_spec_between : forall B, 2 <= B -> forall p m N1 D1 N D N2 D2 h x r,
+  1 <= p -> 0 < D1 -> 0 < D -> 0 < D2 -> N1 * D <= N * D1 -> N * D2 <= N2 * D ->
+  convert_value_spec B p m N1 D1 = (h, x, FInexact r) ->
+  convert_value_spec B p m N2 D2 = (h, x, FInexact r) ->
+  convert_value_spec B p m N D = (h, x, FInexact r).
+Proof. exact convert_value_spec_between. Qed.
+Print Assumptions C08_convert_value_spec_between.
+
+Example C08_convert_value_spec_between_ex :
+  convert_value_spec 10 1 MDown 10 3 = (3, 0, FInexact NoOp) /\ convert_value_spec 10 1 MDown 11 3 = (3, 0, FInexact NoOp) /\
+  convert_value_spec 10 1 MDown 7 2 = (3, 0, FInexact NoOp).
+Proof. exact convert_value_spec_between_ex. Qed.
+
+(** the stability test of the repaired ln/exp route is SOUND: both ends of the interval round to the same float with the
+    same Inexact flag => every value between the ends has exactly that float and flag as its specification *)
+Theorem C08_large_ends_agree_correct : forall NB, 2 <= NB -> forall p m ys ye pad N D s' e' r,
+  1 <= p -> ys <> 0 -> 1 <= pad -> 0 < D ->
+  round_norm NB p m (ys * (NB ^ pad - 1)) (ye - pad) = CDone s' e' (FInexact r) ->
+  round_norm NB p m (ys * (NB ^ pad + 1)) (ye - pad) = CDone s' e' (FInexact r) ->
+  (let '(Nl, Dl) := value_frac NB (ys * (NB ^ pad - 1)) (ye - pad) in
+   let '(Nh, Dh) := value_frac NB (ys * (NB ^ pad + 1)) (ye - pad) in
+   (Nl * D <= N * Dl /\ N * Dh <= Nh * D) \/ (Nh * D <= N * Dh /\ N * Dl <= Nl * D)) ->
+  convert_value_spec NB p m N D = (s', e', FInexact r).
+Proof. exact large_ends_agree_correct. Qed.
+Print Assumptions C08_large_ends_agree_correct.
+
+Example C08_large_ends_agree_correct_ex :
+  round_norm 10 1 MDown (35 * (10 ^ 2 - 1)) (-1 - 2) = CDone 3 0 (FInexact NoOp) /\
+  round_norm 10 1 MDown (35 * (10 ^ 2 + 1)) (-1 - 2) = CDone 3 0 (FInexact NoOp) /\
+  value_frac 10 (35 * (10 ^ 2 - 1)) (-1 - 2) = (3465, 1000) /\ value_frac 10 (35 * (10 ^ 2 + 1)) (-1 - 2) = (3535, 1000) /\
+  3465 * 2 <= 7 * 1000 /\ 7 * 1000 <= 3535 * 2.
+Proof. vm_compute. repeat split; congruence. Qed.
